@@ -79,12 +79,12 @@ theorem no_panic_agree (hS : Setup P c aL aS nL n) (hw : 1 ≤ P.window) {closab
   simp only [hL.noFail 0 hS.good.n_pos, Bool.false_or, hL.w]
   rw [beq_eq_false_iff_ne]; omega
 
-/-- … and with `interleave_blocks = 0` both do, for every non-empty object (e2e: `senderPanics`; BlockEnc: the first
-    `read` returns `panic`) -/
+/-- … and with window 0 e2e's `senderPanics` flag is raised exactly where BlockEnc sends NOTHING (since the repair of
+    sched-7: `None` at the first `read`; before: the `debug_assert` panic) - for every non-empty object -/
 theorem window_zero_agree (P : Params) (e : Flute.Session.Enc) (k : Nat) (s0 : Enc) (closable : Bool) (src : Source)
     (hw : P.window = 0) (hl : P.len ≠ 0) (hew : e.w = 0) (hk : e.ks[0]? = some k)
     (hnew : Enc.new P src closable = .ok s0) :
-    Flute.Session.senderPanics e = true ∧ (BlockEnc.read P s0 false).1 = .panic := by
+    Flute.Session.senderPanics e = true ∧ (BlockEnc.read P s0 false).1 = .none := by
   constructor
   · unfold Flute.Session.senderPanics; rw [hk]; simp [hew]
   · unfold Enc.new at hnew
@@ -123,11 +123,11 @@ theorem empty_object_agree :
     Flute.Session.emitTransfer (e0 .nocode 0 true) = run0 noCode 0 (.stream { bytes := [], pos := 0, sched := [] }) := by
   decide
 
-/-- first block refused (Raptor, 2 symbols): e2e flags `senderPanics`, BlockEnc's first `read` returns `panic` -/
+/-- first block refused (Raptor, 2 symbols): e2e flags `senderPanics`, BlockEnc's first `read` returns `None` (nothing sent) -/
 theorem refused_first_block_agree :
     Flute.Session.senderPanics { scheme := .raptor, ks := #[2], p := 1, w := 1, closable := true } = true ∧
     (match Enc.new { codec := raptorLegacy (fun _ _ _ _ => []), e := 4, b := 8, p := 1, window := 1, len := 8 } (.buffer (List.range 8)) true with
      | .ok s0 => (BlockEnc.read { codec := raptorLegacy (fun _ _ _ _ => []), e := 4, b := 8, p := 1, window := 1, len := 8 } s0 false).1
-     | .error _ => .none) = .panic := by decide
+     | .error _ => .hang) = .none := by decide
 
 end Flute.Props.C01.Link
